@@ -16,7 +16,7 @@ def posOps : List String :=
 def answer (line impl : String) : String × String :=
   let toks := (line.splitOn " ").filter (· ≠ "")
   match toks with
-  | [] => ("-", "-")
+  | [] => ("~", "-")
   | op :: args =>
     if posOps.contains op then
       match parseRaw args with
